@@ -350,5 +350,5 @@ pub fn run(ctx: &Ctx, prop: &str) -> ! {
             });
         }
     }
-    rep.finish()
+    crate::finish(rep)
 }
